@@ -19,8 +19,8 @@ CHECKS = {
  "C08": ("exploration",
          "deviation-bounded exhaustive enumeration of trivia/case variants against the base program's meaning (differential on the real assembler)",
          "DESIGN.md §4 C08",
-         "For 39 base programs covering every statement kind (plus 8 with diagnostics) every single deviation - 5 single-line trivia at every ws slot, 8 at every mws slot, case flip of every mnemonic/directive/register/hex literal/keyword, whole-file CRLF and leading/trailing trivia - and, in thorough, every pair of deviations at most 6 terminals apart is assembled and its bytes, symbol table and normalised diagnostics compared with the base. Exhaustive for deviation bound 1 (quick) / 2 (thorough).",
-         "Trivia slots come from the harness grammar (read off the parser); literals and strings are atomic; the slot after a prefix minus is excluded because `- x` is the scope identifier `-` in mos's grammar (see DESIGN.md false alarms)."),
+         "For 39 base programs covering every statement kind (plus 8 with diagnostics) every single deviation - 8 single-line trivia (blank, tab, block comments incl. empty, nested, doc-style and code-like) at every ws slot, 13 at every mws slot (those plus line breaks, empty and code-like line comments), two statements joined onto one line where the line break is not the grammar's separator, case flip of every mnemonic/directive/register/hex literal/keyword, whole-file CRLF and leading/trailing trivia - and, in thorough, every pair of deviations at most 6 terminals apart is assembled and its bytes, symbol table and normalised diagnostics compared with the base. Exhaustive for deviation bound 1 (quick) / 2 (thorough).",
+         "Trivia slots come from the harness grammar (read off the parser); literals and strings are atomic; the slot after a prefix minus is excluded because `- x` is the scope identifier `-` in mos's grammar (see DESIGN.md false alarms). Joining lines is not tried after an operand-less instruction or before `*=`: there the line break is a separator, not trivia."),
  "C02": ("exploration",
          "bounded-exhaustive program enumeration with a fixed-point certificate check of the implementation's own output",
          "DESIGN.md §4 C02",
